@@ -673,6 +673,51 @@ func c20Count(c *Ctx) *RuleResult {
 					return true
 				})
 			}
+			if !safe {
+				// the release sits in a helper method called on the same object before the removal:
+				//   x.unlockAll(); x.remove(...)   where unlockAll does `lockCount += UnlockAll(...)` and
+				//   skips that only under comparisons of lockCount with 0
+				gcf := NewFuncCFG(info, cu.Decl.Body)
+				ast.Inspect(cu.Decl.Body, func(m ast.Node) bool {
+					hc, ok := m.(*ast.CallExpr)
+					if !ok || hc == call {
+						return true
+					}
+					hsel, ok := ast.Unparen(hc.Fun).(*ast.SelectorExpr)
+					if !ok || exprStr(hsel.X) != recvExpr {
+						return true
+					}
+					hfn := calleeOf(info, hc)
+					if hfn == nil || p.Decl(hfn) == nil || hfn == u.Fn {
+						return true
+					}
+					hd := p.Decl(hfn)
+					hinfo := p.InfoFor(hd)
+					unlocks, adds, condsOK := false, false, true
+					ast.Inspect(hd.Body, func(k ast.Node) bool {
+						switch x := k.(type) {
+						case *ast.CallExpr:
+							if xs, ok := ast.Unparen(x.Fun).(*ast.SelectorExpr); ok && xs.Sel.Name == "UnlockAll" {
+								unlocks = true
+							}
+						case *ast.AssignStmt:
+							if x.Tok == token.ADD_ASSIGN && isLC(hinfo, x.Lhs[0]) {
+								adds = true
+							}
+						case *ast.IfStmt:
+							be, isB := ast.Unparen(x.Cond).(*ast.BinaryExpr)
+							if !isB || !isLC(hinfo, be.X) || exprStr(be.Y) != "0" {
+								condsOK = false
+							}
+						}
+						return true
+					})
+					if unlocks && adds && condsOK && gcf.Dominates(hc, call) {
+						safe = true
+					}
+					return true
+				})
+			}
 			if safe {
 				r.ok(construct, posOf(p, call), "the caller establishes lockCount == 0 first")
 			} else {
